@@ -54,7 +54,7 @@ def describe(tier):
             "position of a 24-byte payload; bare base64 (encoded with an own encoder) x 4 embeddings at scan level, expected: exactly one "
             "encoding.base64 node covering exactly the blob with the payload as value whenever the documented acceptance rules hold (own predicate); "
             "base64 wrapped into 5..10000 lines (boundary ladder) of width 4 and 76 with 4 line-break spellings; long payloads (up to 3000 bytes) that start with a monotonous sled so that the characters which satisfy the rules appear only late; boundary blobs on both sides of every rule (20/24 characters, 6/7 distinct characters, pure hex, pure letters, slash share 3/32 +- one "
-            "character); every assignment of %d line-break spellings to the %d gaps of a 7-group blob; 6 call forms x every payload length; hex runs of "
+            "character; EVERY base64-alphabet character at EVERY position of a hex-only, an upper-case hex-only and a letters-only 24-character text); every assignment of %d line-break spellings to the %d gaps of a 7-group blob; 6 call forms x every payload length; hex runs of "
             "9/10/11/16 pairs x lower/upper/mixed x digit-only prefixes of 0..24 characters x embeddings; FromHexString call forms (plain, [System.Convert]:: prefix, lower case); PowerShell byte arrays of 499..640 elements x 5 element spellings (decimal, 0x hex, 0X HEX, zero-padded, mixed) x 4 separators x 3 embeddings. "
             "Forward direction: every node labelled encoding.base64 / decoded.hexadecimal / encoding.hexidecimal / cipher.xor* / cipher.multibyte_xor "
             "met in these runs, in xor runs (keys 0..999 x 4 spellings x 3 carriers; key-guessing form with repeating keys of length 1..4) and in every "
@@ -224,6 +224,13 @@ def run_unit(unit, rec):
         for slashes in (5, 6, 7):
             blobs.append((b"/" * slashes + b"Qk1DREVGR0hJSktMTU5PUFFSU1RVVldYQk1DREVGR0hJSktMTU5PUFFSU1RVVldY")[:64])
         blobs += [base, base[:-1], base[:-2] + b"==", b"QUJD" * 5 + b"QQ==", b"QUJD" * 5 + b"QUI=", b"QUJD" * 5 + b"QU"]
+        # one step away from the pure-hex and pure-letters exclusions: EVERY character of the base64 alphabet at EVERY position of a hex-only
+        # and of a letters-only 24-character text (so: '+a1b2..', '0x4d5a..', 'a1b2..+', one digit inside letters, ...)
+        for basis in (b"a1b2c3d4e5f60718293a4b5c", b"A1B2C3D4E5F60718293A4B5C", b"abcdefghijklmnopqrstuvwx"):
+            for pos in range(len(basis)):
+                for ch in B64ABC:
+                    blobs.append(basis[:pos] + bytes([ch]) + basis[pos + 1:])
+        blobs = list(dict.fromkeys(blobs))
         for b64 in blobs:
             for pre, suf in EMBED[:3]:
                 data = pre + b64 + suf
